@@ -90,9 +90,9 @@ var sqlCaseSites = []string{
 func c10() *core.Check {
 	plan := func(tier string, seed uint64) []core.Unit {
 		us := []core.Unit{{Gen: "sites", Lo: 0, Hi: uint64(len(sqlCaseSites))}}
-		mixes := []Mix{{Gen: "corpus"}, {Gen: "atoms", Dict: "sqlext", K: 2}, {Gen: "seq", Dict: "sqlext", N: 150000}, {Gen: "mut", Dict: "sqlext", N: 100000}, {Gen: "wl", N: 50000}, {Gen: "g03", N: 100000}}
+		mixes := []Mix{{Gen: "corpus"}, {Gen: "bytes"}, {Gen: "atoms", Dict: "sqlext", K: 2}, {Gen: "seq", Dict: "sqlext", N: 150000}, {Gen: "mut", Dict: "sqlext", N: 100000}, {Gen: "wl", N: 50000}, {Gen: "g03", N: 100000}}
 		if tier == "thorough" {
-			mixes = []Mix{{Gen: "corpus"}, {Gen: "trunc"}, {Gen: "atoms", Dict: "sqlext", K: 3}, {Gen: "seq", Dict: "sqlext", N: 2500000}, {Gen: "mut", Dict: "sqlext", N: 2000000}, {Gen: "novel", Dict: "sqlext", N: 1000000}, {Gen: "wl", N: 500000}, {Gen: "g03", N: 1500000}}
+			mixes = []Mix{{Gen: "corpus"}, {Gen: "bytes"}, {Gen: "trunc"}, {Gen: "atoms", Dict: "sqlext", K: 3}, {Gen: "seq", Dict: "sqlext", N: 2500000}, {Gen: "mut", Dict: "sqlext", N: 2000000}, {Gen: "novel", Dict: "sqlext", N: 1000000}, {Gen: "wl", N: 500000}, {Gen: "g03", N: 1500000}}
 		}
 		// one unit per site so that the exhaustive mask sweeps run in parallel
 		us = us[:0]
@@ -199,9 +199,9 @@ func c11() *core.Check {
 		for i := range htmlCaseSites {
 			us = append(us, core.Unit{Gen: "sites", Lo: uint64(i), Hi: uint64(i + 1), Arg: tier})
 		}
-		mixes := []Mix{{Gen: "corpus"}, {Gen: "atoms", Dict: "htmlfull", K: 2}, {Gen: "seq", Dict: "htmlfull", N: 150000}, {Gen: "mut", Dict: "htmlfull", N: 100000}, {Gen: "g04", N: 150000}}
+		mixes := []Mix{{Gen: "corpus"}, {Gen: "bytes"}, {Gen: "atoms", Dict: "htmlfull", K: 2}, {Gen: "seq", Dict: "htmlfull", N: 150000}, {Gen: "mut", Dict: "htmlfull", N: 100000}, {Gen: "g04", N: 150000}}
 		if tier == "thorough" {
-			mixes = []Mix{{Gen: "corpus"}, {Gen: "trunc"}, {Gen: "atoms", Dict: "htmlfull", K: 3}, {Gen: "seq", Dict: "htmlfull", N: 2500000}, {Gen: "mut", Dict: "htmlfull", N: 2000000}, {Gen: "novel", Dict: "htmlfull", N: 1000000}, {Gen: "g04", N: 2500000}}
+			mixes = []Mix{{Gen: "corpus"}, {Gen: "bytes"}, {Gen: "trunc"}, {Gen: "atoms", Dict: "htmlfull", K: 3}, {Gen: "seq", Dict: "htmlfull", N: 2500000}, {Gen: "mut", Dict: "htmlfull", N: 2000000}, {Gen: "novel", Dict: "htmlfull", N: 1000000}, {Gen: "g04", N: 2500000}}
 		}
 		return append(us, planMix(htmlDomain, mixes)...)
 	}
